@@ -139,8 +139,9 @@ def _eval_cases(prop, cases, stats, sample_every=0):
     fails = []
     by_srv = {}
     kept = []
+    no_excl = bool(os.environ.get("NMV_NO_EXCLUDE"))
     for c in cases:
-        ex = prop.excluded(c)
+        ex = None if no_excl else prop.excluded(c)
         if ex:
             stats.rejected["excluded_by_known_finding:" + ex] = stats.rejected.get("excluded_by_known_finding:" + ex, 0) + 1
             continue
